@@ -806,6 +806,11 @@ class Gen:
 
     # -- body rewrites (token level)
     def rewrite_body(self, body, relsrc, key, c, mut_self):
+        # comments inside a body are blanked (newlines kept, so line numbers are unchanged): the anchored
+        # rewrites below are regular expressions over the code and must not depend on commentary
+        toks0 = lex(body)
+        if any(t.kind in ("comment", "doc") for t in toks0):
+            body = "".join(("".join(ch if ch == "\n" else " " for ch in t.text) if t.kind in ("comment", "doc") else t.text) for t in toks0)
         # R22 (locals): a loop invariant has to mention the local it is about; the side-car names it through an
         # anchor (`bind NAME: /regex/`) so that renaming the local renames the clauses with it
         if c.binds:
